@@ -28,7 +28,7 @@ func initExactTypeNode() {
 			return value.Ref(self), value.Undefined
 
 		},
-		vm.DefWithParameters(3),
+		vm.DefWithParameters(2),
 	)
 
 	vm.Def(
